@@ -37,6 +37,12 @@ def make_x(arr, kind):
         return arr.tolist()
     if kind == "series":
         return pd.Series(arr.ravel())
+    if kind == "nd1":  # 1-D array: one row for streaming detectors, one column for (univariate) batch detectors
+        return np.array(arr.ravel())
+    if kind == "nd1_view":
+        big = np.zeros(arr.size * 2)
+        big[::2] = arr.ravel()
+        return big[::2]
     raise AssertionError(kind)
 
 
@@ -191,10 +197,11 @@ def strat_detector(names):
                 mx = 30 if name == "PCACD" else 20
                 rows = draw(vs.row_stream(ncols, min_segments=1, max_segments=3, seg_min=3, seg_max=12, max_total=mx, spread=2, shift=6))
                 items = cat._jitter(rows) if name == "PCACD" else rows
-                kinds = [draw(st.sampled_from(X_KINDS + ["df"] + (["series"] if True else []))) for _ in items]
+                kinds = [draw(st.sampled_from(X_KINDS + ["df", "series", "nd1", "nd1_view"])) for _ in items]
             else:
                 items = draw(vs.batch_history(ncols, n_min=4, n_max=9, rows_min=6, rows_max=14, spread=2, shift=4, p_shift=0.5))
-                kinds = [draw(st.sampled_from(X_KINDS + ["df", "df"])) for _ in items]
+                one_d = ["series", "nd1", "nd1", "nd1_view"] if ncols == 1 else []
+                kinds = [draw(st.sampled_from(X_KINDS + ["df", "df"] + one_d)) for _ in items]
             n = len(items)
             now = draw(st.lists(st.tuples(st.integers(0, n - 1), st.sampled_from([0, 0, 1, 3])), min_size=1, max_size=6))
             overwrites = sorted({(min(t + d, n - 1), t) for t, d in now})
@@ -236,19 +243,45 @@ def check_injector(case, ctx):
     which = case["which"]
     aux = None
     present = sorted(set(float(c) for c in case["data"]["cls"]))
+    classes = {"FeatureShift": inj.FeatureShiftInjector, "FeatureSwap": inj.FeatureSwapInjector, "FeatureCover": inj.FeatureCoverInjector, "LabelSwap": inj.LabelSwapInjector, "LabelJoin": inj.LabelJoinInjector, "BrownianNoise": inj.BrownianNoiseInjector}
+    obj = None
+    if which in classes:
+        with sut(injector=which):
+            obj = classes[which]()
+        if case.get("warmup"):
+            # the object has been used before, on data of the other container kind
+            other = dict(case["data"])
+            other["kind"] = "df" if case["data"]["kind"] == "nd" else "nd"
+            odata, ofcols, oycol = build_inj_data(other)
+            try:
+                with sut(injector=which):
+                    if which == "FeatureShift":
+                        obj(odata, 0, n, ofcols[0], 0.5)
+                    elif which == "FeatureSwap":
+                        obj(odata, 0, n, ofcols[0], ofcols[1])
+                    elif which == "FeatureCover":
+                        obj(odata, oycol, len(present), random_state=1)
+                    elif which == "LabelSwap":
+                        obj(odata, 0, n, oycol, 0.0, 1.0)
+                    elif which == "LabelJoin":
+                        obj(odata, 0, n, oycol, 0.0, 1.0, 5.0)
+                    else:
+                        obj(odata, 0, n, ofcols[0], 1.5, random_state=1)
+            finally:
+                ctx.label("warmed-up-object")
     with sut(injector=which):
         if which == "FeatureShift":
-            out = inj.FeatureShiftInjector()(data, a, b, fcols[case["c1"] % len(fcols)], 0.5, alpha=0.25)
+            out = obj(data, a, b, fcols[case["c1"] % len(fcols)], 0.5, alpha=0.25)
         elif which == "FeatureSwap":
-            out = inj.FeatureSwapInjector()(data, a, b, fcols[case["c1"] % len(fcols)], fcols[case["c2"] % len(fcols)])
+            out = obj(data, a, b, fcols[case["c1"] % len(fcols)], fcols[case["c2"] % len(fcols)])
         elif which == "FeatureCover":
-            out = inj.FeatureCoverInjector()(data, ycol, len(present), random_state=case["seed"])
+            out = obj(data, ycol, len(present), random_state=case["seed"])
         elif which == "LabelSwap":
-            out = inj.LabelSwapInjector()(data, a, b, ycol, 0.0, 1.0)
+            out = obj(data, a, b, ycol, 0.0, 1.0)
         elif which == "LabelJoin":
-            out = inj.LabelJoinInjector()(data, a, b, ycol, 0.0, 1.0, 5.0)
+            out = obj(data, a, b, ycol, 0.0, 1.0, 5.0)
         elif which == "BrownianNoise":
-            out = inj.BrownianNoiseInjector()(data, a, b, fcols[case["c1"] % len(fcols)], 1.5, random_state=case["seed"])
+            out = obj(data, a, b, fcols[case["c1"] % len(fcols)], 1.5, random_state=case["seed"])
         elif which == "LabelProbability":
             if b == a:
                 ctx.label("skipped-empty-window")  # empty windows are judged by C20
@@ -308,6 +341,7 @@ def strat_injector(tier):
             "c1": draw(st.integers(0, 3)),
             "c2": draw(st.integers(0, 3)),
             "seed": draw(st.integers(0, 10**6)),
+            "warmup": draw(st.booleans()),
         }
 
     return s()
@@ -322,12 +356,12 @@ PROPERTY = {
     "level": "exploration",
     "rule": (
         "detectors: for each of the 14 Streaming/Batch detectors a short multi-epoch history in which every argument is a fresh object of a "
-        "drawn kind (ndarray C / Fortran order / non-contiguous view / read-only, DataFrame single float block / mixed float32-float64, Series, "
+        "drawn kind (ndarray C / Fortran order / non-contiguous view / read-only, 1-D arrays and 1-D views for univariate input, DataFrame single float block / mixed float32-float64, Series, "
         "list; labels as scalar / array / list / Series) and, after drawn calls (same call, next call, three calls later), the caller "
         "overwrites what it passed cell by cell in place. Oracles: a deep snapshot of every argument equals the argument after the call; "
         "the observation trace with overwrites equals the trace of the same run without overwrites. Non-trivial = DataFrame input, an "
         "overwrite (of the reference / a drifted batch for batch detectors) and >= 2 later updates. injectors: every injector on ndarray and "
-        "DataFrame data: input and dict arguments unchanged bit-for-bit, result is a new object of the same container type sharing no memory."
+        "DataFrame data: input and dict arguments unchanged bit-for-bit, result is a new object of the same container type sharing no memory; in half of the cases the injector object was used before on data of the other container kind."
     ),
     "assumptions": [
         "read-only arrays cannot be overwritten by the caller and only take part in the snapshot check",
